@@ -74,6 +74,9 @@ type vhpxReqSpec struct {
 	ChunkedReq bool          `json:"chunked_req"`
 	Resp       *vhpxRespSpec `json:"resp"`
 	Payload    string        `json:"payload"`
+	// HalfClose: the client shuts down its write side right after sending the request and keeps reading
+	// (printf ... | nc): net/http cancels the request context while the upstream has not answered yet
+	HalfClose bool `json:"half_close"`
 }
 
 type vhpxUpSpec struct {
@@ -808,6 +811,11 @@ func (c *vhpxCluster) doHTTP(addr string, rq *vhpxReqSpec, key string, out *vhpx
 	werr := make(chan error, 1)
 	go func() {
 		_, err := conn.Write(buf.Bytes())
+		if err == nil && rq.HalfClose {
+			if tc, ok := conn.(*net.TCPConn); ok {
+				_ = tc.CloseWrite()
+			}
+		}
 		werr <- err
 	}()
 
